@@ -356,6 +356,30 @@ func dirEntries(dir string) int {
 	return len(ents)
 }
 
+// oldLayers builds the argument of the old interface Realize([]*claircore.Layer): one fresh
+// Layer per slot, carrying only the digest and the URI.
+func oldLayers(srv *server, layers []*layer, keys []int) []*claircore.Layer {
+	lp := make([]*claircore.Layer, len(keys))
+	for i, k := range keys {
+		lp[i] = &claircore.Layer{Hash: claircore.MustParseDigest(layers[k].digest), URI: srv.uri(k), Headers: map[string][]string{}}
+	}
+	return lp
+}
+
+// slotCheck is the statement for one slot of a realized list: the Layer in it is initialised,
+// is the layer that slot names, and reads back that layer's bytes.
+func slotCheck(l *claircore.Layer, want *layer) string {
+	switch {
+	case l == nil:
+		return "slot-is-nil"
+	case !l.Fetched():
+		return "layer-in-the-slot-is-not-initialised"
+	case l.Hash.String() != want.digest:
+		return "slot-holds-another-digest " + l.Hash.String()
+	}
+	return readBack(l, want)
+}
+
 // ReadAtSeeker is what Layer.Reader returns, as far as the checks use it.
 type ReadAtSeeker interface {
 	io.Reader
